@@ -497,3 +497,12 @@ with plain_hdl (h : hdl) : bool :=
 
 Definition reachable_plain (s : st) : Prop :=
   exists roots ls, forallb plain_ev roots = true /\ s = exec ls (start roots).
+
+(* ---- the kind of exception a raising handler raises (0 an Exception subclass, 1 a BaseException subclass
+   that is not an Exception, 2 GeneratorExit; SystemExit / KeyboardInterrupt belong to C08) is a parameter of the
+   scripts that the model ignores: the dispatcher and processTask treat every such exception alike.  The
+   harness emits [RRaiseK k] / [HGK k ...]; they are RRaise / HG whatever k is, so every theorem about
+   programs holds for every choice of kinds, and an implementation whose behaviour depends on the kind
+   disagrees with the model. *)
+Definition RRaiseK (k : nat) : res := RRaise.
+Definition HGK (k : nat) (ys : list (list ev * pyval)) (lk : list ev) (graise : bool) : hdl := HG ys lk graise.
